@@ -49,41 +49,41 @@ def M(pid, name, functions, bounds, tiers=("quick", "thorough"), **kw):
 PROPERTY_ASSUMPTIONS["C10"] = [
     "no oracle, no stub: the decoders run exactly as compiled; a counterexample replays natively bit for bit",
     "the peer-facing entry for ghost-chain payloads is Message::deserialize (tag 10); GhostChainSync::deserialize called directly on unchecked bytes is outside the claim",
-    "lengths other than the listed ones are outside the claim (quick: the cheap decoders over all lengths up to their size, and boundary lengths of Message tags; thorough: adds Transaction / Block / HandshakeResponse at the boundary lengths derived from the format, each 2-8 minutes of CBMC because every `?` on io::Error unrolls its recursive drop glue)",
+    "two engines: engine M explores each decoder once with buffer LENGTH and content symbolic (every length up to the stated bound in one exploration, quick tier); engine K (CBMC on the compiled code, exact std semantics) re-decides the cheap fixed-size decoders in the quick tier and Transaction / Block / HandshakeResponse / Message at boundary lengths in the thorough tier (2-8 minutes each: every `?` on io::Error unrolls its recursive drop glue)",
 ]
 MEMCMP = ["--unwindset", "memcmp.0:66"]
 TX = ["saito_core::core::consensus::transaction::Transaction::deserialize_from_net", "saito_core::core::consensus::slip::Slip::deserialize_from_net", "saito_core::core::consensus::hop::Hop::deserialize_from_net"]
 Q, T, QT = ("quick", "thorough"), ("thorough",), ("quick", "thorough")
-for n, tiers in [(93, QT), (94, T), (151, T), (152, T), (153, T), (211, T), (223, T), (282, T)]:
+for n, tiers in [(93, T), (94, T), (151, T), (152, T), (153, T), (211, T), (223, T), (282, T)]:
     K("C10", "c10_tx_len%03d" % n, "c10", TX, "buffer of exactly %d bytes, every byte symbolic (all count fields included); allocation bound asserted on success" % n,
       tiers=tiers, covers=2 if n in (93, 152, 153, 211, 223, 282) else 1, cbmc_args=MEMCMP, timeout=1500)
 K("C10", "c10_tx_short", "c10", TX[:1], "every buffer of length 0..=92, symbolic content: always Err", tiers=T, cbmc_args=MEMCMP, timeout=1500)
 K("C10", "c10_tx_counts_152", "c10", TX, "152-byte buffer; the four count fields concrete from a table (3 exact layouts x 4 fields x {+1,-1,255,256,u32::MAX}), other 136 bytes symbolic", tiers=T, cbmc_args=MEMCMP, timeout=2400)
 K("C10", "c10_slip_total", "c10", TX[1:2], "every buffer of length 0..=60", covers=2, cbmc_args=MEMCMP)
-K("C10", "c10_hop_total", "c10", TX[2:3], "every buffer of length 0..=131", cbmc_args=MEMCMP)
+K("C10", "c10_hop_total", "c10", TX[2:3], "every buffer of length 0..=131", cbmc_args=MEMCMP, tiers=T)
 K("C10", "c10_utxokey_total", "c10", ["saito_core::core::consensus::slip::Slip::parse_slip_from_utxokey"], "every 59-byte key", covers=2, cbmc_args=MEMCMP)
 K("C10", "c10_version_total", "c10", ["<Version as Serialize>::deserialize"], "every buffer of length 0..=6", covers=2, cbmc_args=MEMCMP)
 K("C10", "c10_blockchain_request_total", "c10", ["<BlockchainRequest as Serialize>::deserialize"], "every buffer of length 0..=74", covers=2, cbmc_args=MEMCMP)
 K("C10", "c10_challenge_total", "c10", ["<HandshakeChallenge as Serialize>::deserialize"], "every buffer of length 0..=34", covers=2, cbmc_args=MEMCMP)
 MSG = ["saito_core::core::msg::message::Message::deserialize"]
-for tag, n, tiers in [(1, 32, QT), (5, 72, T), (6, 40, QT), (7, 0, T), (8, 0, T), (10, 36, QT), (10, 37, T), (10, 117, T), (10, 118, T), (10, 119, T),
-                      (11, 72, T), (12, 4, QT), (13, 5, T), (14, 4, T), (15, 33, QT), (15, 66, T)]:
+for tag, n, tiers in [(1, 32, T), (5, 72, T), (6, 40, T), (7, 0, T), (8, 0, T), (10, 36, T), (10, 37, T), (10, 117, T), (10, 118, T), (10, 119, T),
+                      (11, 72, T), (12, 4, T), (13, 5, T), (14, 4, T), (15, 33, T), (15, 66, T)]:
     K("C10", "c10_msg_t%02d_len%02d" % (tag, n), "c10", MSG + (["saito_core::core::msg::ghost_chain_sync::GhostChainSync::deserialize"] if tag == 10 else []),
       "tag %d followed by exactly %d symbolic bytes; decoded message has the tag's type" % (tag, n), tiers=tiers, cbmc_args=MEMCMP, timeout=1500)
 K("C10", "c10_msg_short_any_tag", "c10", MSG, "every tag byte except 9, payload of every length 0..=35, symbolic content", covers=3, tiers=T, cbmc_args=MEMCMP, timeout=2400)
-K("C10", "c10_msg_empty", "c10", MSG, "the empty buffer", cbmc_args=MEMCMP)
+K("C10", "c10_msg_empty", "c10", MSG, "the empty buffer", cbmc_args=MEMCMP, tiers=T)
 HSR = ["<HandshakeResponse as Serialize>::deserialize", "<Version as Serialize>::deserialize", "PeerService::deserialize_services"]
-for n, tiers in [(141, QT), (142, T), (143, T)]:
+for n, tiers in [(141, T), (142, T), (143, T)]:
     K("C10", "c10_hsr_len%d" % n, "c10", HSR, "buffer of exactly %d symbolic bytes (url length field symbolic)" % n, tiers=tiers, covers=1 if n == 141 else 2, cbmc_args=MEMCMP, timeout=2400)
 K("C10", "c10_hsr_urlfield_146", "c10", HSR, "146-byte buffer, url length field concrete in {4,5,146,147,u32::MAX}, other bytes symbolic", tiers=T, cbmc_args=MEMCMP, timeout=2400)
 BLK = ["saito_core::core::consensus::block::Block::deserialize_from_net"] + TX
-for n, tiers in [(388, QT), (389, QT), (404, T), (405, T), (482, T)]:
+for n, tiers in [(388, T), (389, T), (404, T), (405, T), (482, T)]:
     K("C10", "c10_block_len%d" % n, "c10", BLK, "buffer of exactly %d symbolic bytes (transaction count and every per-transaction count symbolic)" % n,
       tiers=tiers, covers=1, cbmc_args=MEMCMP, timeout=2400)
 K("C10", "c10_gt_len97", "c10", ["saito_core::core::consensus::golden_ticket::GoldenTicket::deserialize_from_net"], "every 97-byte payload", cbmc_args=MEMCMP)
 K("C10", "c10_gt_anylen_witness", "c10", ["saito_core::core::consensus::golden_ticket::GoldenTicket::deserialize_from_net"], "every payload of length 0..=98",
   expect_fail="c10_gt_anylen_witness", covers=0, cbmc_args=MEMCMP)
-K("C10", "c10_wallet_len65", "c10", ["saito_core::core::consensus::wallet::Wallet::deserialize_from_disk"], "every file of length 65..=70", cbmc_args=MEMCMP)
+K("C10", "c10_wallet_len65", "c10", ["saito_core::core::consensus::wallet::Wallet::deserialize_from_disk"], "every file of length 65..=70", cbmc_args=MEMCMP, tiers=T)
 K("C10", "c10_wallet_short_witness", "c10", ["saito_core::core::consensus::wallet::Wallet::deserialize_from_disk"], "every file of length 0..=64",
   expect_fail="c10_wallet_short_witness", covers=0, cbmc_args=MEMCMP)
 
